@@ -25,3 +25,9 @@ check('C05', 'exploration', 'property-based testing: generated large object grap
       'depth are asserted over the whole table (frame and watch values), and breadth-first order is decided from the '
       'oracle\'s own shortest-path depths over the same live graph.',
       'Limits injected through the LocationAction config; set elements count-checked only.')
+check('C07', 'exploration', 'property-based testing: aliasing/cyclic object graphs on a real running frame chain, closure + bijection invariants',
+      'Aliased and cyclic graphs are bound to locals of inner/outer/module frames of a running program; watches name values '
+      'already in the frame; log-only and snapshot actions share the event; the budget cuts the graph. Every reference must '
+      'resolve (Python snapshot and wire message), the object<->id relation found by a joint walk over names must be a '
+      'bijection, and the table may not be larger than the set of distinct reachable objects.',
+      'Identity claims only for objects the frame keeps alive; one known finding (watch `locals()`), see known_findings.json.')
